@@ -44,7 +44,9 @@ impl Model {
         }
         None
     }
-    pub fn matches(&self, real: &[ax_x86::verif::AreaView]) -> Option<String> {
+    pub fn matches(&self, real_all: &[ax_x86::verif::AreaView]) -> Option<String> {
+        // empty areas hold no byte
+        let real: Vec<&ax_x86::verif::AreaView> = real_all.iter().filter(|a| a.length > 0 || self.areas.iter().any(|m| m.start == a.start && m.data.is_empty())).collect();
         if real.len() != self.areas.len() {
             return Some(format!("{} areas, model has {}", real.len(), self.areas.len()));
         }
@@ -194,6 +196,18 @@ impl C08 {
         let mut model = Model { areas: vec![MArea { start: CODE_AT, data: code.clone(), access: 5 }] };
         let layout = gen_layout(rng);
         let mut counter = k.wrapping_mul(1_000_003);
+        // empty areas created first, at addresses that areas of the layout will cover: they occupy no address
+        let mut empties: Vec<u64> = Vec::new();
+        if rng.below(3) == 0 {
+            for (start, len) in &layout {
+                if *len > 2 && rng.below(2) == 0 {
+                    let x = start + rng.range(1, *len as u64 - 1);
+                    if call(|| ax.mem_init_zero(x, 0)).is_ok() {
+                        empties.push(x);
+                    }
+                }
+            }
+        }
         for (start, len) in &layout {
             counter += 1;
             let data = stamp(counter, *len);
@@ -215,7 +229,7 @@ impl C08 {
         let mut tail: Vec<String> = Vec::new();
         for step in 0..nops {
             let ai = rng.below(model.areas.len() as u64) as usize;
-            let op = rng.below(12);
+            let op = rng.below(13);
             let before = ax.verif_areas();
             counter += 1;
             let desc: String;
@@ -342,6 +356,38 @@ impl C08 {
                         if *v != want {
                             failure = Some(("typed-read-disagrees-with-bytes".into(), format!("got {:#x}, little-endian bytes say {:#x}", v, want)));
                         }
+                    }
+                }
+                12 => {
+                    // resize an area (never the code area): the common prefix stays, growth reads as zero
+                    if ai == 0 {
+                        continue;
+                    }
+                    let a = model.areas[ai].clone();
+                    let cur = a.data.len() as u64;
+                    let new_len = match rng.below(5) {
+                        0 => cur / 2,
+                        1 => cur + rng.range(1, 64),
+                        2 => cur.saturating_sub(1).max(1),
+                        3 => cur + 1,
+                        _ => rng.range(1, cur.max(2) * 2),
+                    };
+                    let collides = model.areas.iter().enumerate().any(|(i, o)| i != ai && !o.data.is_empty() && (a.start as u128) < o.end() && (o.start as u128) < a.start as u128 + new_len as u128) || a.start as u128 + new_len as u128 > 1u128 << 64 || empties.iter().any(|e| *e >= a.start && (*e as u128) < a.start as u128 + new_len.max(cur) as u128 + 1);
+                    cls = AddrClass::Inside;
+                    opname = "mem_resize_section";
+                    desc = format!("mem_resize_section({:#x}, {:#x} -> {:#x})", a.start, cur, new_len);
+                    if collides {
+                        expect_ok = None;
+                        continue;
+                    }
+                    let res = call(|| ax.mem_resize_section(a.start, new_len));
+                    expect_ok = Some(true);
+                    if res.is_panic() {
+                        failure = Some((format!("panic:{}", res.panic_key()), res.describe()));
+                    } else if !res.is_ok() {
+                        failure = Some(("resize-without-collision-failed".into(), res.describe()));
+                    } else {
+                        model.areas[ai].data.resize(new_len as usize, 0);
                     }
                 }
                 _ => {
